@@ -16,8 +16,18 @@ static mut B_DONE: bool = false;
 static mut B_PTR: usize = 0x261;
 static mut B_AT_SITE: u32 = 0x262;
 
+/// which lookup the two threads use: the shared one (`get_or_default`) or the mutable one (`get_mut_or_default`)
+static mut MUTABLE: bool = true;
+fn lookup() -> &'static Bean {
+    if unsafe { MUTABLE } {
+        unsafe { BeanFactory::get_mut_or_default::<Bean>("b") }
+    } else {
+        BeanFactory::get_or_default::<Bean>("b")
+    }
+}
+
 fn thread_b() {
-    let b: &Bean = BeanFactory::get_or_default::<Bean>("b");
+    let b: &Bean = lookup();
     unsafe {
         B_DONE = true;
         B_PTR = std::ptr::from_ref(b) as usize;
@@ -45,8 +55,9 @@ fn hook(site: u32) {
 
 /// Two threads first ask for the same named object; thread B's whole lookup runs at scheduling point `target` of
 /// thread A's lookup (or after it when A passes fewer points): both get the same instance and a later lookup returns it.
-fn two_first_lookups(target: u32) {
+fn two_first_lookups(target: u32, mutable: bool) {
     unsafe {
+        MUTABLE = mutable;
         B_DONE = false;
         B_PTR = 0;
         B_AT_SITE = 0;
@@ -54,7 +65,7 @@ fn two_first_lookups(target: u32) {
         TARGET = target;
     }
     verif_rt::set_yield_hook(Some(hook));
-    let a: &Bean = BeanFactory::get_or_default::<Bean>("b");
+    let a: &Bean = lookup();
     verif_rt::set_yield_hook(None);
     let preempted = unsafe { B_DONE };
     if !preempted {
@@ -75,7 +86,14 @@ macro_rules! c26_preempt_at {
         #[kani::proof]
         #[kani::unwind(6)]
         fn $name() {
-            two_first_lookups($k);
+            two_first_lookups($k, false);
+        }
+    };
+    ($name:ident, $k:expr, mutable) => {
+        #[kani::proof]
+        #[kani::unwind(6)]
+        fn $name() {
+            two_first_lookups($k, true);
         }
     };
 }
@@ -88,6 +106,16 @@ c26_preempt_at!(c26_first_lookups_preempt_at_5, 5);
 c26_preempt_at!(c26_first_lookups_preempt_at_6, 6);
 c26_preempt_at!(c26_first_lookups_preempt_at_7, 7);
 c26_preempt_at!(c26_first_lookups_one_after_the_other, 1000);
+// the same race through the mutable lookup, `get_mut_or_default`
+c26_preempt_at!(c26_first_mut_lookups_preempt_at_0, 0, mutable);
+c26_preempt_at!(c26_first_mut_lookups_preempt_at_1, 1, mutable);
+c26_preempt_at!(c26_first_mut_lookups_preempt_at_2, 2, mutable);
+c26_preempt_at!(c26_first_mut_lookups_preempt_at_3, 3, mutable);
+c26_preempt_at!(c26_first_mut_lookups_preempt_at_4, 4, mutable);
+c26_preempt_at!(c26_first_mut_lookups_preempt_at_5, 5, mutable);
+c26_preempt_at!(c26_first_mut_lookups_preempt_at_6, 6, mutable);
+c26_preempt_at!(c26_first_mut_lookups_preempt_at_7, 7, mutable);
+c26_preempt_at!(c26_first_mut_lookups_one_after_the_other, 1000, mutable);
 
 /// Sequential sanity: repeated lookups return one instance; init_bean does not replace it.
 #[kani::proof]
